@@ -413,7 +413,7 @@ def run_job(job, log):
     parsed = parse_cbmc_json(out)
     if len(parsed) == 3 or parsed[0] == 'ERROR':
         msgs = parsed[2]
-        res['status'] = 'undecided' if ('std::bad_alloc' in out or 'Out of memory' in out or rc in (-9, -6, 134, 137)) else 'broken'
+        res['status'] = 'undecided' if ('std::bad_alloc' in out or 'Out of memory' in out or 'external SAT solver has provided an unexpected response' in out or rc in (-9, -6, 134, 137)) else 'broken'
         res['detail'] = 'cbmc rc=%s: %s' % (rc, ' | '.join(str(m) for m in msgs)[-1500:])
         log('[%s] %s: %s' % (job.name, res['status'].upper(), res['detail'][-600:]))
         return res
